@@ -185,8 +185,10 @@ def C06_cut_full (fix : Bool) : Prop :=
   ∀ (β : Type) (cd : Codec β) (s : Sys β), Reach cd fix s → ∀ D ∈ s.taken, ∃ M ∈ s.hist, D = snap M
 
 /-- … is FALSE on both trees (witness `cutSchedule`: `GetMetadata` locks one topic at a time, and `Topic.GetChannel` does not
-take the NSQD lock that `PersistMetadata` holds).  Replayed on the real code: `TestVerifMetaCutObservation`
-(`restart_from_that_file=loaded-never-passed-state`); open known finding `restart-state-never-passed-through`. -/
+take the NSQD lock that `PersistMetadata` holds).  Replayed on the real code: `TestVerifMetaCutSteered` (this very schedule,
+forced by parking the persist on `b`'s topic lock; `corpus/C06/known/global_cut_two_topics.ops`) and, unsteered,
+`TestVerifMetaCutObservation` (`restart_from_that_file=loaded-never-passed-state`); open known finding
+`restart-state-never-passed-through`. -/
 theorem cut_full_false (fix : Bool) : ¬ C06_cut_full fix := by
   intro hfull
   have hc : cutCheck (run toyCodec fix Sys.init cutSchedule) = true := by cases fix <;> decide
@@ -265,7 +267,7 @@ theorem pause_ack_chan_flag (cd : Codec β) (fix : Bool) (s : Sys β) (h : Reach
 
 /-- A second nsqd on a data path that is in use refuses to start and disturbs nothing.
 (Audit A14: in the MODEL this holds by definition of `step … .start` — the model's `alive` flag IS the flock.  The content
-of the clause is carried by (i) the tie `flock_before_listen` / `LOCK_EX|LOCK_NB` / `exit_releases_dirlock_last`, (ii) the
+of the clause is carried by (i) the ties `Tie.Meta.flock_first` (flock before the first `Listen`, `LOCK_EX|LOCK_NB`) and `exit_releases_dirlock_last`, (ii) the
 assumption that flock(2) excludes a second holder, and (iii) the legs that start a real second daemon process and a second
 `New()` on a held path.  The theorem only records that the model refuses and changes nothing.) -/
 theorem second_instance_refused (cd : Codec β) (fix : Bool) (s : Sys β) (h : s.alive = true) :
